@@ -51,7 +51,7 @@ theorem remove_other (w : World) (i k : Nat) (nm : String) (h : k ≠ i) : (remo
       | none => simpa using hk
       | some inst0 =>
         simp only []
-        cases detachAll inst0.tab e.nodes e.counted with
+        cases detachAll cfg.keepConnectedNode inst0.tab e.nodes e.counted with
         | inl t => simp [set_other _ _ _ _ h, hk]
         | inr t => simp [set_other _ _ _ _ h, hk]
 
@@ -146,5 +146,27 @@ theorem derive_source (w : World) (i : Nat) (pre : String) (es : List Elt) (hi :
               have := List.getElem?_eq_getElem hlt; rw [hi] at this; exact (Option.some.inj this).symm
             cases kd <;> simp [hi, List.getElem?_set, hlt, hge]
   exact this _ _
+
+theorem lookup_mem {α : Type} (l : List (String × α)) (s : String) (k : α) (h : l.lookup s = some k) : (s, k) ∈ l := by
+  induction l with
+  | nil => simp [List.lookup] at h
+  | cons x xs ih =>
+    obtain ⟨a, b⟩ := x
+    by_cases hs : s = a
+    · subst hs; simp [List.lookup] at h; subst h; exact List.mem_cons_self ..
+    · have : (s == a) = false := by simpa using hs
+      simp [List.lookup, this] at h
+      exact List.mem_cons_of_mem _ (ih h)
+
+/-- with the three flags set, admissibility is just: public operation -/
+theorem runOK_of_flags (cfg : Config) (hadd : cfg.addInvalidates = true) (hrem : cfg.removeInvalidates = true)
+    (hdet : cfg.overrideDetaches = true) (ops : List Op) (w : World)
+    (hpub : ∀ op ∈ ops, op.isPublic) (hok : NoRaise cfg w ops) : RunOK cfg w ops := by
+  induction ops generalizing w with
+  | nil => trivial
+  | cons op ops ih =>
+    refine ⟨?_, hok.1, ih _ (fun o ho => hpub o (List.mem_cons_of_mem _ ho)) hok.2⟩
+    have hp := hpub op (List.mem_cons_self ..)
+    cases op <;> simp_all [Op.admissible, Op.isPublic]
 
 end Lcapy.Cache
